@@ -30,6 +30,8 @@ pub struct Bias {
     pub big: u32,
     /// number of distinct keys used (prefix of the pool); small -> more collisions
     pub keys: u8,
+    /// number of transaction slots used by Begin/Write/Finish/Abort (1..=3)
+    pub slots: u8,
 }
 
 impl Default for Bias {
@@ -53,6 +55,7 @@ impl Default for Bias {
             key_types: crate::common::KEY_TYPES.to_vec(),
             big: 3,
             keys: 7,
+            slots: 3,
         }
     }
 }
@@ -86,10 +89,11 @@ pub fn step(b: &Bias) -> BoxedStrategy<Step> {
         }
     };
     add(b.put, (0..keys, content(b.big), cuts()).prop_map(|(k, c, cuts)| Step::Put { k, c, cuts }).boxed());
-    add(b.begin, (0u8..3, 0..keys).prop_map(|(s, k)| Step::Begin { s, k }).boxed());
-    add(b.write, (0u8..3, content(b.big)).prop_map(|(s, c)| Step::Write { s, c }).boxed());
-    add(b.finish, (0u8..3).prop_map(|s| Step::Finish { s }).boxed());
-    add(b.abort, (0u8..3).prop_map(|s| Step::Abort { s }).boxed());
+    let slots = b.slots.clamp(1, 3);
+    add(b.begin, (0u8..slots, 0..keys).prop_map(|(s, k)| Step::Begin { s, k }).boxed());
+    add(b.write, (0u8..slots, content(b.big)).prop_map(|(s, c)| Step::Write { s, c }).boxed());
+    add(b.finish, (0u8..slots).prop_map(|s| Step::Finish { s }).boxed());
+    add(b.abort, (0u8..slots).prop_map(|s| Step::Abort { s }).boxed());
     add(b.remove, (0..keys).prop_map(|k| Step::Remove { k }).boxed());
     add(b.rr, (bound(keys), bound(keys)).prop_map(|(lo, hi)| Step::RemoveRange { lo, hi }).boxed());
     add(b.checkpoint, Just(Step::Checkpoint).boxed());
